@@ -286,6 +286,21 @@ inline void runSeq(const SeqCase &c, pbt::Ctx &ctx)
     for (int sel : c.viewCounts) {
       size_t rem = total - r.cursor;
       size_t count;
+      bool viaRead = false;
+      if (sel >= 1000) {
+        // sizes near 2^64 (a length field taken from a corrupt stream): cursor + count wraps around
+        const size_t k = (size_t)(sel - 1000);
+        switch (k % 5) {
+        case 0: count = SIZE_MAX; break;
+        case 1: count = (size_t)0 - r.cursor + (k / 10) % (total + 1); break;  // cursor + count == a small number (mod 2^64)
+        case 2: count = (size_t)1 << 63; break;
+        case 3: count = SIZE_MAX - r.cursor; break;                             // cursor + count == SIZE_MAX, no wrap
+        default: count = (size_t)0 - r.cursor; break;                           // cursor + count == 0 (mod 2^64)
+        }
+        viaRead = (k / 5) % 2 == 1;
+        if (count > rem)
+          ctx.label("size near 2^64");
+      } else
       switch (((sel % 5) + 5) % 5) {
       case 0: count = 0; break;
       case 1: count = rem; break;
@@ -296,13 +311,18 @@ inline void runSeq(const SeqCase &c, pbt::Ctx &ctx)
       size_t before = r.cursor;
       bool threw = false;
       try {
-        auto v = r.getView<uint8_t>(count);
-        PBT_ASSERT(v->size() == count);
-        PBT_ASSERT(count == 0 || v->data() == base + before);
+        if (viaRead && count > rem) {
+          uint8_t tmp[8];
+          r.read(tmp, count);  // must be rejected before anything is copied
+        } else {
+          auto v = r.getView<uint8_t>(count);
+          PBT_ASSERT(v->size() == count);
+          PBT_ASSERT(count == 0 || v->data() == base + before);
+        }
       } catch (const std::runtime_error &) {
         threw = true;
       }
-      PBT_ASSERT_MSG(threw == (count > rem), "getView(" << count << ") with " << rem << " bytes left threw=" << threw);
+      PBT_ASSERT_MSG(threw == (count > rem), (viaRead && count > rem ? "read(" : "getView(") << count << ") with " << rem << " bytes left threw=" << threw);
       PBT_ASSERT(r.cursor == before + (threw ? 0 : count));
     }
   }
@@ -365,14 +385,20 @@ inline void runFixed(const FixedCase &c, pbt::Ctx &ctx)
     int kind = ((std::get<0>(op) % 3) + 3) % 3;
     size_t rem = C - model.size();
     size_t s;
-    switch (((std::get<1>(op) % 6) + 6) % 6) {
+    switch (((std::get<1>(op) % 9) + 9) % 9) {
     case 0: s = 0; break;
     case 1: s = 1; break;
     case 2: s = rem ? rem - 1 : 0; break;
     case 3: s = rem; break;
     case 4: s = rem + 1; break;
-    default: s = (size_t)(std::get<2>(op) & ((1ll << 40) - 1)); break;
+    case 5: s = (size_t)(std::get<2>(op) & ((1ll << 40) - 1)); break;
+    // sizes near 2^64: cursor + s wraps around
+    case 6: s = (size_t)0 - model.size() + (size_t)std::get<2>(op) % (rem + 1); break;
+    case 7: s = SIZE_MAX; break;
+    default: s = (size_t)0 - model.size(); break;
     }
+    if (s > (1ull << 62))
+      ctx.label("size near 2^64");
     if (kind == 2) {
       auto v = fw.getWrittenView();
       PBT_ASSERT_MSG(v->size() == model.size(), "getWrittenView().size()=" << v->size() << " written " << model.size());
